@@ -38,6 +38,16 @@ def versionHandler : Handler
   | "verstr", [e, u, r] => do
       let v ← readVersion e u r
       pure (out (Version.toString v))
+  -- verfull <a> <b>: the Policy order on two full version strings (specification side only;
+  -- the "implementation" it is compared with is the real dpkg --compare-versions)
+  | "verfull", [a, b] => do
+      let a ← hx a
+      let b ← hx b
+      pure (match Version.parse a, Version.parse b with
+        | .ok x, .ok y =>
+          let s := toString (Spec.Version.ordInt (Spec.Version.compare x y))
+          s ++ " ; spec=" ++ s
+        | _, _ => "err ; spec=any")
   | "verstr0", [e, u, r] => do
       let v ← readVersion e u r
       pure (out (Version.stringWithoutEpoch v))
